@@ -47,3 +47,33 @@ Definition open_sink (k : sink_kind) (existing : bytes) : option bytes :=
 Definition chan_log (strip : bytes -> bytes) (k : sink_kind) (existing : bytes) (chunks : list bytes)
   : option bytes :=
   snd (chan_session strip true (open_sink k existing) chunks).
+
+(* ---- the whole session, as Driver.open / AsyncDriver.open run it ----
+   The channel log exists only from BaseChannel.open() on: a read() before it finds channel_log None
+   and writes nothing.  A session is the sequence of its channel-level events; [sink] = None: not
+   opened yet (or channel log off). *)
+Inductive sess_ev := EvOpen | EvRead (c : bytes).
+
+Fixpoint sess_log (strip : bytes -> bytes) (k : sink_kind) (existing : bytes) (sink : option bytes)
+  (evs : list sess_ev) : option bytes :=
+  match evs with
+  | [] => sink
+  | EvOpen :: rest => sess_log strip k existing (open_sink k existing) rest
+  | EvRead c :: rest => sess_log strip k existing (snd (chan_read strip true sink c)) rest
+  end.
+
+Definition sess_reads (evs : list sess_ev) : list bytes :=
+  flat_map (fun e => match e with EvRead c => [c] | EvOpen => [] end) evs.
+
+(* the statements of Driver.open / AsyncDriver.open as gen_log.py codes them:
+   1 _pre_open_closing_log, 2 transport.open(), 3 channel.open(), 4 in-channel ssh login,
+   5 in-channel telnet login, 6 on_open, 7 _post_open_closing_log, 0 anything else.
+   [open_before_reads]: channel.open() is there and nothing that may read the channel (a login, on_open,
+   an unknown statement) comes before it. *)
+Fixpoint open_before_reads (steps : list nat) : bool :=
+  match steps with
+  | [] => false
+  | s :: rest =>
+      if Nat.eqb s 3 then true
+      else (Nat.eqb s 1 || Nat.eqb s 2) && open_before_reads rest
+  end.
